@@ -1729,6 +1729,44 @@ def make_objects(rng, mols, fmt, k):
     return objs
 
 
+MARKER_LINES = ['$MOL', '$RXN', '$RXN V3000', 'M  END', 'M  V30 BEGIN CTAB', 'M  V30 END CTAB', 'M  V30 BEGIN PRODUCT', 'M  V30 END REACTANT',
+                'M  V30 COUNTS 1 1', 'M  V30 BEGIN ATOM', 'M  CHG  1   1   1', 'M  V30 1 C 0 0 0 0 -', '$$$$', '$MFMT', '$RFMT', '$DTYPE x', '$DATUM y',
+                '>  <z>', '> <z>', '$RDFILE 1', '  1  0  0  0  0  0            999 V2000', '<cml>', '</molecule>', '<MChemicalStruct>']
+
+
+def marker_lines_stream(ctx):
+    """RT-marker-lines: data items whose value lines look like structure / framing lines of the same or another format, on
+    molecule and reaction records, first and in the middle of a three-record file, through every writer (only values the
+    format can carry: in_meta_domain). The structure part and the other records must not notice."""
+    from chython import smiles, ReactionContainer
+
+    def mk(smi):
+        m = smiles(smi)
+        for j, (_, a) in enumerate(m.atoms()):
+            a.x, a.y = j * 0.825, (j % 2) * 0.5
+        m.flush_cache()
+        return m
+    for fmt in WRITERS:
+        kinds = ('mol', 'rxn') if fmt in ('RDFWrite', 'ERDFWrite', 'MRVWrite') else ('mol',)
+        for line in MARKER_LINES:
+            for v in (f'a\n{line}\nb', line, f'{line}\n{line}'):
+                md = {'k': v, 'k2': 'after'}
+                if not in_meta_domain(md, fmt):
+                    continue
+                for kind in kinds:
+                    for pos in (0, 1):
+                        objs = [mk('CC'), mk('CCC'), mk('C=O')]
+                        if kind == 'rxn':
+                            objs = [ReactionContainer([o], [o.copy()]) for o in objs]
+                        objs[pos].meta.update(md)
+                        ctx.count(('RT-marker-lines', fmt, kind, v, pos))
+                        ctx.dist('RT:marker-lines:' + fmt)
+                        r = roundtrip_check(fmt, objs)
+                        if r:
+                            ctx.fail(*r)
+
+
+
 def stream_roundtrip(ctx, mols, n):
     """RT: property-level oracles on the real code inside the stated domain"""
     rng = ctx.rng
@@ -1762,6 +1800,7 @@ def stream_roundtrip(ctx, mols, n):
             r = meta_probe({'kind': 'meta', 'fmt': fmt, 'meta': md, 'neighbours': True})
             if r:
                 ctx.fail(*r)
+    marker_lines_stream(ctx)
     sessions_stream(ctx, 6 if ctx.quick else 60)
     history_stream(ctx, 6 if ctx.quick else 24)
     foreign_stream(ctx, mols, 2 if ctx.quick else 20)
